@@ -185,12 +185,19 @@ class ServerFacts:
             node = self.methods[self.method_of[v]]
             for sub in node.body:
                 if isinstance(sub, ast.AsyncFunctionDef) and sub.name.endswith("_worker"):
+                    # the names bound to the data connection inside the worker (`x = connection.data_connection`)
+                    stream_names = set()
+                    for n in ast.walk(sub):
+                        if isinstance(n, ast.Assign) and isinstance(n.value, ast.Attribute) and n.value.attr == "data_connection":
+                            for t in n.targets:
+                                if isinstance(t, ast.Name):
+                                    stream_names.add(t.id)
                     items = []
                     for n in ast.walk(sub):
                         if isinstance(n, ast.AsyncWith):
                             for it in n.items:
                                 e = it.context_expr
-                                items.append("stream" if isinstance(e, ast.Name) and e.id == "stream" else "file")
+                                items.append("stream" if isinstance(e, ast.Name) and e.id in stream_names else "file")
                     out[verb] = items
         return out
 
